@@ -136,7 +136,6 @@ func runDiffOnce(in *DInput, withOthers bool) ([]string, string) {
 	} else {
 		e = newEngine(in.Svc)
 		e.raw = true
-		defer e.closeAll()
 	}
 	pc := in.Probe.Conn
 	var out []string
@@ -199,17 +198,12 @@ func runDiffOnce(in *DInput, withOthers bool) ([]string, string) {
 		}
 	}
 	if !udp {
-		// late events of pump goroutines (ftp, smtp: the event of the last line of a connection is
-		// sent after its handler is back in Read): give every runnable goroutine many turns, until
-		// the number of events has stopped changing over such a round - scales with the machine load
-		for n, same := e.rec.count(), 0; same < 3; {
-			schedBarrier(200)
-			e.settle(e.rec.count())
-			if m := e.rec.count(); m == n {
-				same++
-			} else {
-				n, same = m, 0
-			}
+		// late events: in ftp and smtp the event of a connection's last line is sent by its pump
+		// goroutine after the handler is back in Read (or gone).  No waiting time is right for
+		// that on a loaded machine; instead end every session and wait until all goroutines this
+		// run started - handlers, pumps - have finished: then nothing can be recorded any more.
+		if cr := e.drain(); cr != "" {
+			return out, cr
 		}
 		absorb(e.harvest())
 	}
